@@ -197,7 +197,9 @@ def _parse_csv_with_units(
                 return x
         return x
 
-    df_data = df_data.applymap(_to_number_maybe)
+    # DataFrame.applymap was renamed to DataFrame.map (pandas 2.1) and later removed.
+    _elementwise = df_data.map if hasattr(df_data, "map") else df_data.applymap
+    df_data = _elementwise(_to_number_maybe)
 
     units_map = dict(zip(col_names, col_units))
 
